@@ -152,6 +152,7 @@ def needed_targets(prop, targets):
                 n = n.split(".")[-1]
                 todo += [os.path.join(ROOT, "lib", n + ".py"), os.path.join(ROOT, "lib", "props", n + ".py")]
     res = [t for t in targets if "/Properties/" in t]
+    used.add("Hex")
     res += [t for t in targets if "/Corr/" in t and os.path.basename(t)[:-3] in used]
     return res
 
@@ -200,7 +201,7 @@ def coq_eval(workdir, name, text, timeout=900):
     """compile a generated .v file against the development; returns (rc, stdout)"""
     path = os.path.join(workdir, name + ".v")
     with open(path, "w") as f:
-        f.write(text)
+        f.write("From Coq Require Import String.\nFrom TaskctlV Require Import Corr.Hex.\n" + text)
     # generated cases may hold byte lists of 64 KiB: coqc needs more than the default 8 MiB stack to read them
     rc, out = sh("ulimit -s 1000000 2>/dev/null || ulimit -s unlimited 2>/dev/null; exec coqc -Q '%s' TaskctlV '%s'" % (os.path.join(COQ, "theories"), path),
                  cwd=workdir, timeout=timeout)
@@ -267,7 +268,10 @@ def cstring(s):
 
 
 def cbytes(bs):
-    """list of N byte codes"""
+    """list of N byte codes; long ones in the compact notation of Corr/Hex.v (imported by coq_eval into every cases file)"""
+    bs = list(bs)
+    if len(bs) > 24:
+        return '(hx "%s")' % bytes(bs).hex()
     return "[" + "; ".join(str(b) for b in bs) + "]%N"
 
 
